@@ -1,3 +1,4 @@
+import Carquet.Impl.ThriftParquet
 /-
 Model of carquet's writer pipeline: src/writer/page_writer.c, column_writer.c,
 row_group_writer.c, file_writer.c (as of the fixes F2/F3/F17/F60/F64/F23).
@@ -35,11 +36,16 @@ inductive Rep where
 def Rep.code : Rep → Nat
   | .required => 0 | .optional => 1 | .repeated => 2
 
+/-- one `carquet_schema_add_column(schema, name, physical_type, logical_type, repetition, type_length)`
+call as `carquet_writer_create` + `add_column_internal` keep it (`writer_column_def_t`).  `logical` is the
+`logical_type` argument: `none` = NULL pointer (the struct stays zero-filled, id UNKNOWN), the `params`
+union is the constructor's arguments (Impl/ThriftParquet.lean). -/
 structure Col where
   name : String
   ptype : PType
   rep : Rep
   typeLen : Nat
+  logical : Option ThriftParquet.LogicalType := none
   deriving DecidableEq, Repr
 
 /-- `add_column_internal`: levels of a flat column -/
